@@ -653,9 +653,7 @@ func saneProg(r *rand.Rand) []opD {
 			ops = append(ops, rheaderOp(r))
 		} else {
 			o := rbodyOp(r)
-			if raw && o.T == "AppendBody" {
-				o.T = "SetBody" // AppendBody on a raw body is the finding appendbody-after-setbodyraw (own family)
-			}
+			_ = raw // AppendBody on a raw body keeps the raw part since /repo 8762a11
 			switch o.T {
 			case "SetBodyRaw":
 				raw = true
@@ -727,9 +725,15 @@ func gen(r *rand.Rand, i int) desc {
 		}
 		d.Cfg.DisableKA = false
 		d.Tag, d.Key = tag, tag
+		if fixedClass[tag] {
+			d.Key = "" // repaired in /repo: must pass now
+		}
 	}
 	return d
 }
+
+// classes that were findings and have been repaired in /repo (6f630cd, 8762a11): kept as regression families
+var fixedClass = map[string]bool{"manual-content-length-on-chunked-stream": true, "appendbody-after-setbodyraw": true}
 
 // programs in the classes of findings/C03.txt (see there)
 func findingProg(r *rand.Rand) (string, []opD) {
@@ -841,7 +845,13 @@ func corpus() []desc {
 		add("connclose", two(m, opD{T: "Set", K: hlib.B("Connection"), V: hlib.B("close")}, opD{T: "SetBody", V: hlib.B("bye")}))
 		add("trailer-fixed", two(m, opD{T: "Set", K: hlib.B("Foo"), V: hlib.B("bar")}, opD{T: "SetTrailer", V: hlib.B("Foo")}, opD{T: "SetBody", V: hlib.B("abc")}))
 	}
-	key := func(k string, reqs []reqD) { c = append(c, desc{Reqs: reqs, Tag: k, Key: k}) }
+	key := func(k string, reqs []reqD) {
+		d := desc{Reqs: reqs, Tag: k, Key: k}
+		if fixedClass[k] {
+			d.Key = ""
+		}
+		c = append(c, d)
+	}
 	evl := "HTTP/1.1 200 OK\r\nContent-Length: 3\r\n\r\nEVL"
 	for _, m := range []string{"GET", "POST"} {
 		key("stream-writerto-oversize", two(m, opD{T: "SetBodyStream", N: 5, S: rd("writerto", false, big)}))
@@ -859,6 +869,13 @@ func corpus() []desc {
 	// the same calls answering a HEAD request are harmless
 	add("skipbody-head", two("HEAD", opD{T: "SetBody", V: hlib.B("hello")}, opD{T: "SkipBody", B: true}))
 	add("skipbody-false", two("GET", opD{T: "SkipBody", B: true}, opD{T: "SetBody", V: hlib.B("hello")}, opD{T: "SkipBody", B: false}))
+	// Del of every header the Response keeps outside h.h
+	for _, k := range []string{"Content-Type", "Content-Encoding", "Server", "Set-Cookie", "Connection", "Trailer", "Transfer-Encoding", "Date", "content-type", "X-Foo"} {
+		add("del-special", two("GET", opD{T: "SetContentType", V: hlib.B("text/html")}, opD{T: "SetContentEncoding", V: hlib.B("identity")}, opD{T: "SetServer", V: hlib.B("s1")},
+			opD{T: "Add", K: hlib.B("Set-Cookie"), V: hlib.B("a=b")}, opD{T: "SetConnectionClose"}, opD{T: "Set", K: hlib.B("X-Foo"), V: hlib.B("1")}, opD{T: "SetTrailer", V: hlib.B("X-Foo")},
+			opD{T: "SetBody", V: hlib.B("hello")}, opD{T: "Del", K: hlib.B(k), Vr: len(k) % 2}))
+		add("del-special", two("GET", opD{T: "SetBodyStream", N: -1, S: rd("reader", false, "abc")}, opD{T: "Set", K: hlib.B("Connection"), V: hlib.B("keep-alive, close")}, opD{T: "Del", K: hlib.B(k)}))
+	}
 	for _, v10 := range []bool{true} {
 		for _, ka := range []bool{false, true} {
 			c = append(c, desc{Tag: "http10", Reqs: []reqD{{Method: "GET", V10: v10, KeepAlive: ka, Ops: []opD{{T: "SetBody", V: hlib.B("ten")}}}, {Method: "GET", Ops: []opD{{T: "SetBody", V: hlib.B("second")}}}}})
